@@ -1866,7 +1866,7 @@ class Method:
                 field = self.input.get_field(*name.split("."))
                 # The key is used as an attribute path on the request; every
                 # segment that is a reserved name carries a trailing underscore.
-                name = ".".join(
+                name = self._request_attr_path(name) or ".".join(
                     segment + "_" if segment in utils.RESERVED_NAMES else segment
                     for segment in name.split(".")
                 )
